@@ -11,9 +11,11 @@ Mirrors, as they are (quirks included):
                                                (INT8: `int64(rec[1])` of the BYTE — no sign extension)
                   fopOnNumber :384             literal is FLOAT and record is an integer ⇒ record := float64(record)
                                                (as repaired by /repo ec0bd3f), then compareNumberDte
-                  compareNumberDte :420        switch on the RECORD's dtype: float → FloatVal (=/!= through
-                                               dtypeutils.AlmostEquals), unsigned → UnsignedVal, signed → SignedVal
-                pkg/common/dtypeutils/dtypeutils.go AlmostEquals :664   math.Abs(left-right) < 0.0001
+                  compareNumberDte :420        switch on the RECORD's dtype: float → FloatVal (exact == / != since the
+                                               C02 repair; before: dtypeutils.AlmostEquals, kept as `…Old`),
+                                               unsigned → UnsignedVal, signed → SignedVal (an unsigned literal above
+                                               MaxInt64 — wrapped SignedVal — is greater than every record: C02 repair)
+                pkg/common/dtypeutils/dtypeutils.go AlmostEquals :664   math.Abs(left-right) < 0.0001 (`almostEq`, Old only)
   literal side  pkg/segment/utils/numberutils.go GetNumberTypeAndVal :26 (+ getIntTypeAndVal / getUintTypeAndVal /
                   getFloatTypeAndVal: a value equal to 0 is typed SS_UINT8 whatever its spelling)
                 pkg/segment/utils/segutils.go enclosureFromJsonNumber :189  (which of SignedVal / UnsignedVal /
@@ -31,8 +33,11 @@ reports overflow as an error) — the Oracle rejects other bit patterns.  The ro
 (`strconv.ParseFloat`, `float64(int64)`, `float64(uint64)`, the subtraction inside AlmostEquals and the literal
 0.0001) is the PARAMETER `rnd : Rat → Rat` of the model; the Oracle instantiates it with `roundF64`
 (round-to-nearest-even) and the correspondence run validates that instance against the Go arithmetic.
-ASSUMPTION stated for the theorems: `rnd 0 = 0`, `0 < rnd 0.0001`, `rnd (rnd x) = rnd x`; exactness of
+ASSUMPTION stated for the theorems: `rnd 0 = 0`, `rnd (rnd x) = rnd x`, `rnd` fixes binary64 values; exactness of
 `rnd` on the integers that are converted is part of the guards (it holds for |n| ≤ 2^53).
+The definitions named `…Old` mirror the code BEFORE the C02 repairs (tolerance-based float equality, wrapped
+literal in the signed branch, ConvertToSameType overwriting a value with a failed conversion) and exist only for
+the recorded counterexample theorems.
 `int64(f)` / `uint64(f)` of a float literal outside the target range are implementation-defined in Go; the
 model wraps, no comparison reads these two fields of a FLOAT literal.
 Regular-expression / wildcard literals (`isRegexSearch`) are outside this model.
@@ -230,20 +235,32 @@ def getNumberRecDte (rec : Bytes) : Res (Option RecNum) :=
     else if t = tDictArr ∨ t = tRawJson then .ok none
     else .err "invalid-rec-type"
 
-/-- float branch of `compareNumberDte` -/
-def cmpFloat (rnd : Rat → Rat) (op : Op) (a b : Rat) : Bool :=
+/-- float branch of `compareNumberDte`: exact float64 comparison for all six operators -/
+def cmpFloat (op : Op) (a b : Rat) : Bool := cmpQ op a b
+
+/-- float branch BEFORE the repair: `=` / `!=` through `dtypeutils.AlmostEquals` -/
+def cmpFloatOld (rnd : Rat → Rat) (op : Op) (a b : Rat) : Bool :=
   match op with
   | .eq => almostEq rnd a b
   | .ne => !almostEq rnd a b
-  | .lt => decide (a < b)
-  | .le => decide (a ≤ b)
-  | .gt => decide (b < a)
-  | .ge => decide (b ≤ a)
+  | _ => cmpQ op a b
 
-/-- `compareNumberDte`: the switch is on the RECORD's dtype; the literal supplies the field of that type -/
-def compareNumberDte (rnd : Rat → Rat) (r : RecNum) (q : Lit) (op : Op) : Bool :=
+/-- `compareNumberDte`: the switch is on the RECORD's dtype; the literal supplies the field of that type.  Signed
+record: an UNSIGNED literal whose SignedVal is negative is above MaxInt64 (`int64(uintVal)` wrapped), so the record
+is smaller. -/
+def compareNumberDte (r : RecNum) (q : Lit) (op : Op) : Bool :=
   match r with
-  | .float a => cmpFloat rnd op a q.flt
+  | .float a => cmpFloat op a q.flt
+  | .unsigned n => cmpZ op (n : Int) (q.unsigned : Int)
+  | .signed i =>
+    if q.dtype = .unsigned ∧ q.signed < 0 then
+      (match op with | .ne | .lt | .le => true | _ => false)     -- op == NotEquals || LessThan || LessThanOrEqualTo
+    else cmpZ op i q.signed
+
+/-- `compareNumberDte` BEFORE the repairs -/
+def compareNumberDteOld (rnd : Rat → Rat) (r : RecNum) (q : Lit) (op : Op) : Bool :=
+  match r with
+  | .float a => cmpFloatOld rnd op a q.flt
   | .unsigned n => cmpZ op (n : Int) (q.unsigned : Int)
   | .signed i => cmpZ op i q.signed
 
@@ -262,7 +279,15 @@ def fopOnNumber (rnd : Rat → Rat) (rec : Bytes) (q : Lit) (op : Op) : Res Bool
   | .panic => .panic
   | .err e => .err e
   | .ok none => .ok (op == .ne)          -- "=, <, >= etc. should not match, but != should match"
-  | .ok (some r) => .ok (compareNumberDte rnd (promote rnd q r) q op)
+  | .ok (some r) => .ok (compareNumberDte (promote rnd q r) q op)
+
+/-- `fopOnNumber` BEFORE the repairs (numeric literals only; the rest of the dispatch did not change) -/
+def fopOnNumberOld (rnd : Rat → Rat) (rec : Bytes) (q : Lit) (op : Op) : Res Bool :=
+  match getNumberRecDte rec with
+  | .panic => .panic
+  | .err e => .err e
+  | .ok none => .ok (op == .ne)
+  | .ok (some r) => .ok (compareNumberDteOld rnd (promote rnd q r) q op)
 
 def isAlpha (c : Nat) : Bool := (65 ≤ c && c ≤ 90) || (97 ≤ c && c ≤ 122)
 
@@ -452,34 +477,46 @@ def fieldFloat (rnd : Rat → Rat) : SVal → Option Rat
 /-- `=` of the where stage: `ConvertToSameType` then Go `==` on the interface values.  Same dynamic type: plain
 equality.  int64 vs float64: the LEFT value is converted to the right one's type (`unsafe.Sizeof` of two
 interface values is always equal) — an int64 through `ParseFloat(Sprint(i))`.  A float64 on the left (a value
-that `EvaluateToNumber` did not turn into an int64: non-integral, or beyond int64) goes through
-`ConvertToInt(Sprint(f))`, which FAILS and returns 0; `ConvertToSameType` has then already overwritten the left
-value with that 0, and its error branch compares `Sprint(0)` with `Sprint(right)` as strings: equal exactly
-when the right-hand integer is 0. -/
+that `EvaluateToNumber` did not turn into an int64: non-integral, or beyond int64) fails `ConvertToInt(Sprint(f))`;
+since the C02 repair both ORIGINAL values are then compared as strings, and `Sprint` of such a float (it contains
+'.' or "e+") never equals the digits of an int64. -/
 def whereEq (rnd : Rat → Rat) : WNum → WNum → Bool
   | .i64 a, .i64 b => decide (a = b)
   | .f64 a, .f64 b => decide (a = b)
   | .i64 a, .f64 b => decide (rnd (a : Rat) = b)
+  | .f64 _, .i64 _ => false
+
+/-- BEFORE the repair: `ConvertToSameType` had already overwritten the left value with the 0 that the failed
+`ConvertToInt` returns, and compared `Sprint(0)` with `Sprint(right)`: equal exactly when the right integer is 0. -/
+def whereEqOld (rnd : Rat → Rat) : WNum → WNum → Bool
   | .f64 _, .i64 b => decide (b = 0)
+  | l, r => whereEq rnd l r
 
 /-- `CompareValues` operand: `ConvertToFloat(fmt.Sprint(v), 64)` -/
 def WNum.toF (rnd : Rat → Rat) : WNum → Rat
   | .i64 a => rnd (a : Rat)
   | .f64 q => q
 
-/-- `<field> <op> <literal>` in a `where` stage on a numeric field (none: the field is not a number) -/
-def whereCmp (rnd : Rat → Rat) (v : SVal) (op : Op) (t : NumText) : Option Bool :=
+/-- `<field> <op> <literal>` in a `where` stage on a numeric field (none: the field is not a number), for a given
+`=` of two evaluated numbers -/
+def whereCmpWith (weq : WNum → WNum → Bool) (rnd : Rat → Rat) (v : SVal) (op : Op) (t : NumText) : Option Bool :=
   match fieldFloat rnd v with
   | none => none
   | some lf =>
     let l := toNumber lf
     let r := toNumber (rnd t.val)
     some (match op with
-      | .eq => whereEq rnd l r
-      | .ne => !whereEq rnd l r
+      | .eq => weq l r
+      | .ne => !weq l r
       | .lt => decide (l.toF rnd < r.toF rnd)
       | .le => decide (l.toF rnd ≤ r.toF rnd)
       | .gt => decide (r.toF rnd < l.toF rnd)
       | .ge => decide (r.toF rnd ≤ l.toF rnd))
+
+def whereCmp (rnd : Rat → Rat) (v : SVal) (op : Op) (t : NumText) : Option Bool := whereCmpWith (whereEq rnd) rnd v op t
+
+/-- the where stage BEFORE the repair -/
+def whereCmpOld (rnd : Rat → Rat) (v : SVal) (op : Op) (t : NumText) : Option Bool :=
+  whereCmpWith (whereEqOld rnd) rnd v op t
 
 end SigModel.Cmp
